@@ -63,6 +63,7 @@ CoArms(n) ==
   CASE n = "S" -> <<[d |-> "fst", c |-> Ret(TInt)], [d |-> "snd", c |-> Fn(TInt, Ret(TInt))]>>
     [] n = "P" -> <<[d |-> "run", c |-> OS], [d |-> "get", c |-> Ret(Data("B"))]>>
     [] n = "S1" -> <<[d |-> "fst", c |-> Ret(TInt)]>>            \* a strict sub-signature of S
+    [] n = "S3" -> <<[d |-> "go", c |-> Fn(TInt, Fn(TInt, Fn(TInt, Ret(TInt))))]>>   \* a destructor with three parameters (scenario sc-copat3 only)
     [] OTHER -> << >>
 DataNames == {"B", "O", "B1"}
 CoNames   == {"S", "P", "S1"}
@@ -95,7 +96,7 @@ Ob(s, ty, ctx) == [s |-> s, ty |-> ty, ctx |-> ctx]
 Arity(tok) ==
   CASE tok.k \in {"var", "int", "unit", "str", "tyterm"} -> 0
     [] tok.k \in {"thunk", "ret", "lam", "force", "exit", "ctor", "dtor", "fix", "i2s", "vlam"} -> 1
-    [] tok.k \in {"do", "app", "let", "arith", "pair", "matchP", "wl", "sapp", "vapp"} -> 2
+    [] tok.k \in {"do", "app", "let", "arith", "pair", "matchP", "wl", "sapp", "vapp", "vlet"} -> 2
     [] tok.k = "br" -> 4
     [] tok.k = "match" -> 1 + Len(DataArms(tok.d)) - (IF tok.skip = 0 THEN 0 ELSE 1)
     [] tok.k = "comatch" -> Len(CoArms(tok.d)) - (IF tok.skip = 0 THEN 0 ELSE 1)
@@ -145,6 +146,11 @@ TyOf(ctx, n) ==
     [] k = "vlam" -> LET b == TyOf(Append(ctx, n.a), n.xs[1]) IN
          IF IsErr(b) THEN b ELSE IF ~IsV(b) THEN Err("K-Sort-VLam")
          ELSE IF b = n.b THEN VFn(n.a, n.b) ELSE Err("T-VLam-Body")
+    [] k = "vlet" -> LET v == TyOf(ctx, n.xs[1]) b == TyOf(Append(ctx, n.a), n.xs[2]) IN      \* value-level let: let x = v in w
+         IF IsErr(v) THEN v ELSE IF ~IsV(v) THEN Err("K-Sort-VLet-Bindee")
+         ELSE IF v # n.a THEN Err("T-VLet-Bindee")
+         ELSE IF IsErr(b) THEN b ELSE IF ~IsV(b) THEN Err("K-Sort-VLet-Body")
+         ELSE IF b = n.b THEN n.b ELSE Err("T-VLet-Body")
     [] k = "vapp" -> LET f == TyOf(ctx, n.xs[1]) a == TyOf(ctx, n.xs[2]) IN
          IF IsErr(f) THEN f ELSE IF f # VFn(n.a, n.b) THEN Err("T-VApp-Head")
          ELSE IF IsErr(a) THEN a ELSE IF a = n.a THEN n.b ELSE Err("T-VApp-Arg")
@@ -243,6 +249,7 @@ GenValue(ty, ctx, G(_, _)) ==
   \/ On("data") /\ ty.t = "data" /\ \E i \in 1..Len(DataArms(ty.n)) :
         G([k |-> "ctor", d |-> ty.n, c |-> DataArms(ty.n)[i].c], <<Ob("v", DataArms(ty.n)[i].a, ctx)>>)
   \/ On("pair") /\ ty.t = "pair" /\ G([k |-> "pair", a |-> ty.a, b |-> ty.b], <<Ob("v", ty.a, ctx), Ob("v", ty.b, ctx)>>)
+  \/ On("vlet") /\ \E A \in BTys : G([k |-> "vlet", a |-> A, b |-> ty], <<Ob("v", A, ctx), Ob("v", ty, Append(ctx, A))>>)
   \/ On("vfn") /\ ty.t = "vfn" /\ G([k |-> "vlam", a |-> ty.a, b |-> ty.b], <<Ob("v", ty.b, Append(ctx, ty.a))>>)
   \/ On("vfn") /\ ty.t # "vfn" /\ \E A \in {T \in BTys : T.t \in {"int", "unit"}} :
         G([k |-> "vapp", a |-> A, b |-> ty], <<Ob("v", VFn(A, ty), ctx), Ob("v", A, ctx)>>)
@@ -355,7 +362,25 @@ ScEscapeT(G(_, _)) ==
        Lit(<<V(3), [k |-> "matchP", c |-> OS], V(5)>>),
        Ob("c", OS, <<Thk(FT), PRT, TRI, TInt, PRT, TRI, TInt>>) >>)
 
-ScenarioCfg == \E p \in Prods : p \in {"sc-escape", "sc-escapeT"}
+(* "copat3": a destructor clause with THREE value parameters (`| .go a b c => H1` in copattern spelling), called   *)
+(* with three arguments; which argument reaches which parameter is observable through H1:                           *)
+(*   let t = { comatch | .go => fn a => fn b => fn c => H1 } in do r <- ! t .go H2 H3 H4; ! exit r                  *)
+F1 == Fn(TInt, Ret(TInt))
+F2 == Fn(TInt, F1)
+F3 == Fn(TInt, F2)
+ScCopat3(G(_, _)) ==
+  G([k |-> "let", a |-> Thk(CoData("S3")), c |-> OS],
+    << Lit(<<[k |-> "thunk", c |-> CoData("S3")], [k |-> "comatch", d |-> "S3", skip |-> 0],
+             [k |-> "lam", a |-> TInt, c |-> F2], [k |-> "lam", a |-> TInt, c |-> F1], [k |-> "lam", a |-> TInt, c |-> Ret(TInt)]>>),
+       Ob("c", Ret(TInt), <<TInt, TInt, TInt>>),
+       Lit(<<[k |-> "do", a |-> TInt, c |-> OS], [k |-> "app", a |-> TInt, c |-> Ret(TInt)], [k |-> "app", a |-> TInt, c |-> F1],
+             [k |-> "app", a |-> TInt, c |-> F2], [k |-> "dtor", d |-> "go", c |-> F3], [k |-> "force", c |-> CoData("S3")], V(1)>>),
+       Ob("v", TInt, <<Thk(CoData("S3"))>>),
+       Ob("v", TInt, <<Thk(CoData("S3"))>>),
+       Ob("v", TInt, <<Thk(CoData("S3"))>>),
+       Lit(<<[k |-> "exit"], V(2)>>) >>)
+
+ScenarioCfg == \E p \in Prods : p \in {"sc-escape", "sc-escapeT", "sc-copat3"}
 Gen ==
   /\ phase = "gen" /\ todo # << >>
   /\ Len(out) + Len(todo) <= MaxLen
@@ -367,6 +392,7 @@ Gen ==
      \/ o.s = "c" /\ (out # << >> \/ ~ScenarioCfg) /\ GenCompu(o.ty, o.ctx, Good)
      \/ o.s = "c" /\ o.ty = OS /\ o.ctx = << >> /\ out = << >> /\ On("sc-escape") /\ ScEscape(Good)
      \/ o.s = "c" /\ o.ty = OS /\ o.ctx = << >> /\ out = << >> /\ On("sc-escapeT") /\ ScEscapeT(Good)
+     \/ o.s = "c" /\ o.ty = OS /\ o.ctx = << >> /\ out = << >> /\ On("sc-copat3") /\ ScCopat3(Good)
      \/ o.s \in {"v", "c"} /\ Faults # {} /\ faulty = "none" /\ GenFault(o)
 
 ----------------------------------------------------------------------------
@@ -381,6 +407,7 @@ EvalV(v, e) ==
     [] v.k = "thunk" -> [k |-> "clo", b |-> v.xs[1], e |-> e]
     [] v.k = "ctor"  -> [k |-> "ctor", c |-> v.c, a |-> EvalV(v.xs[1], e)]
     [] v.k = "pair"  -> [k |-> "pair", a |-> EvalV(v.xs[1], e), b |-> EvalV(v.xs[2], e)]
+    [] v.k = "vlet"  -> EvalV(v.xs[2], Append(e, EvalV(v.xs[1], e)))
     [] v.k = "vlam"  -> [k |-> "vclo", b |-> v.xs[1], e |-> e]
     \* a pure closure runs in ITS OWN captured environment extended with the argument (static scoping)
     [] v.k = "vapp"  -> LET f == EvalV(v.xs[1], e) IN EvalV(f.b, Append(f.e, EvalV(v.xs[2], e)))
